@@ -15,7 +15,7 @@ Import ListNotations.
 Local Open Scope N_scope.
 
 Definition hash := list N.
-Definition entry := (hash * N)%type.
+Notation entry := (hash * N)%type (only parsing).
 
 (** for i, ok := bs.NextSet(0); ok && int(i) < len(vals); i, ok = bs.NextSet(i + 1) { acc += vals[i].Power }
     The Go loop visits the set bits in increasing order and stops at the first index >= len(vals);
